@@ -27,7 +27,7 @@ func genC14Op(c *Ctx, massive bool) Op {
 	switch c.Pick(5, 2, 2, 2, 3, 2, 1, 1, 2) {
 	case 0:
 		op.Kind = "output"
-		op.Branch = branchSets[c.Pick(4, 1, 1, 1, 1, 1, 1)]
+		op.Branch = branchSets[c.Pick(4, 1, 1, 1, 1, 1, 1, 1, 1)]
 		if op.Branch != nil && c.Chance(1, 5) {
 			op.BranchOnly = []string{"last", "mid"}[c.Draw(2)]
 		}
